@@ -39,6 +39,7 @@ fn run_check(id: &str, tier: Tier) -> Option<Report> {
         "C15" => checks::c15::run(tier),
         "C16" => checks::c16::run(tier),
         "C17" => checks::c17::run(tier),
+        "C18" => checks::c18::run(tier),
         _ => return None,
     })
 }
@@ -62,6 +63,7 @@ fn replay_case(id: &str, case: &Value) -> Option<Vec<Failure>> {
         "C15" => checks::c15::replay(case),
         "C16" => checks::c16::replay(case),
         "C17" => checks::c17::replay(case),
+        "C18" => checks::c18::replay(case),
         _ => return None,
     })
 }
